@@ -255,8 +255,12 @@ func polOpt(p int, node bool) []el.Option {
 	// options of the OTHER kind (a shared option slice passed to every register call) must not influence this call
 	case 9:
 		return []el.Option{mk(el.DenyOverwrite), other(el.AllowOverwrite)}
-	default:
+	case 10:
 		return []el.Option{other(el.DenyOverwrite)}
+	// look-alike spellings of the two policy values are invalid values like any other
+	default:
+		name := []string{"denyoverwrite", "ALLOWOVERWRITE", " DenyOverwrite", "", "DenyOverwrite\x00", "AllowOverwrite "}[(p-11)%6]
+		return []el.Option{mk(el.RegistrationPolicy(name))}
 	}
 }
 
@@ -526,7 +530,7 @@ func tyLit(t int) string {
 	return [...]string{"TOther", "TFilter", "TFormatter", "TSink", "TFormatterFilter", "TOther"}[t]
 }
 func polLit(p int) string {
-	return [...]string{"ANone", "AAllow", "ADeny", "ABad", "ABad", "ABad", "ADeny", "AAllow", "ABad", "ADeny", "ANone"}[p]
+	return [...]string{"ANone", "AAllow", "ADeny", "ABad", "ABad", "ABad", "ADeny", "AAllow", "ABad", "ADeny", "ANone", "ABad", "ABad", "ABad", "ABad", "ABad", "ABad"}[p]
 }
 func opLit(op Op) string {
 	switch op.K {
@@ -812,7 +816,7 @@ func genRandom(e *emitter, r *hc.Rand, n, maxLen int) {
 				if id == 0 || r.Chance(1, 8) {
 					ty = 1 + r.Intn(5)
 				}
-				pol := []int{0, 0, 1, 2, 2, 3, 4, 6, 7, 8, 9, 10}[r.Intn(12)]
+				pol := []int{0, 0, 1, 2, 2, 3, 4, 6, 7, 8, 9, 10, 11 + r.Intn(6)}[r.Intn(13)]
 				if r.Chance(3, 4) && (pol == 3 || pol == 4 || pol == 8) {
 					pol = 0
 				}
@@ -839,7 +843,7 @@ func genRandom(e *emitter, r *hc.Rand, n, maxLen int) {
 						ids[r.Intn(len(ids))] = 0
 					}
 				}
-				pol := []int{0, 0, 0, 1, 2, 3, 4, 5, 6, 7, 8, 9, 10}[r.Intn(13)]
+				pol := []int{0, 0, 0, 1, 2, 3, 4, 5, 6, 7, 8, 9, 10, 11 + r.Intn(6)}[r.Intn(14)]
 				p, t := 1+r.Intn(3), 1+r.Intn(2)
 				if r.Chance(1, 30) {
 					p = 0
@@ -877,7 +881,7 @@ func genRandom(e *emitter, r *hc.Rand, n, maxLen int) {
 
 // C07: all policy sequences up to length maxLen for one node id and one pipeline id, interleaved with removals
 func genPolicy(e *emitter, maxLen int) {
-	pols := []int{0, 1, 2, 3, 4, 6, 7, 9, 10}
+	pols := []int{0, 1, 2, 3, 4, 6, 7, 9, 10, 11, 12}
 	var rec func(seq []int)
 	rec = func(seq []int) {
 		if len(seq) > 0 {
@@ -929,7 +933,11 @@ func genPolicy(e *emitter, maxLen int) {
 			}
 		}
 		if len(seq) < maxLen {
-			for _, p := range pols {
+			next := pols
+			if len(seq) >= 3 {
+				next = []int{0, 1, 2, 3, 11} // the fourth position: the core values only (case count)
+			}
+			for _, p := range next {
 				rec(append(append([]int{}, seq...), p))
 			}
 		}
